@@ -196,6 +196,7 @@ def table_cases(rng, tier):
     rng.shuffle(exprs)
     if tier == "quick":
         exprs = exprs[:3600]
+    exprs += pe.wrap_exprs(rng)
     cases = []
     reps = 1 if tier == "quick" else 4
     gi = 0
